@@ -93,15 +93,15 @@ type appWrite struct {
 }
 
 type appScript struct {
-	Writes      []appWrite `json:"writes,omitempty"`
-	NWrites     int        `json:"nwrites"`
-	TotalBytes  int        `json:"total_bytes"`
-	Raw         bool       `json:"raw"`       // hand whole buffers to Send (multi-fragment) instead of <=MSS chunks
-	ReadBufs    []int      `json:"readbufs"`  // cyclic read-buffer sizes
-	ReadEvery   int        `json:"readevery"` // 0: read whenever something happened at this end; >0: only every n ms
-	PauseAfter  int        `json:"pause_after,omitempty"`
-	PauseMs     int        `json:"pause_ms,omitempty"`
-	writesFull  []appWrite
+	Writes     []appWrite `json:"writes,omitempty"`
+	NWrites    int        `json:"nwrites"`
+	TotalBytes int        `json:"total_bytes"`
+	Raw        bool       `json:"raw"`       // hand whole buffers to Send (multi-fragment) instead of <=MSS chunks
+	ReadBufs   []int      `json:"readbufs"`  // cyclic read-buffer sizes
+	ReadEvery  int        `json:"readevery"` // 0: read whenever something happened at this end; >0: only every n ms
+	PauseAfter int        `json:"pause_after,omitempty"`
+	PauseMs    int        `json:"pause_ms,omitempty"`
+	writesFull []appWrite
 }
 
 // fate of one datagram: delays (ms) of each copy delivered; empty = dropped.
@@ -126,6 +126,7 @@ const (
 type simEvHeap []*simEvent
 
 func (h simEvHeap) Len() int { return len(h) }
+
 // Events of one virtual millisecond run in a canonical order (arrivals, then
 // ticks, then application steps, then scripted functions; A before B) that does
 // not depend on when they were scheduled.
@@ -162,14 +163,14 @@ type coreEnd struct {
 	sim  *simCore
 
 	// writer state
-	wStream    uint64
-	wOff       uint64 // bytes accepted by Send so far
-	wIdx       int    // next write of the script
-	wReadyAt   int64  // earliest time of the next write
-	wMsgs      []int  // lengths of messages accepted (message mode)
-	wBlocked   int64  // times the writer found the window full
-	wRefused   int64
-	wDone      bool
+	wStream  uint64
+	wOff     uint64 // bytes accepted by Send so far
+	wIdx     int    // next write of the script
+	wReadyAt int64  // earliest time of the next write
+	wMsgs    []int  // lengths of messages accepted (message mode)
+	wBlocked int64  // times the writer found the window full
+	wRefused int64
+	wDone    bool
 
 	// reader state
 	rStream     uint64
@@ -183,23 +184,23 @@ type coreEnd struct {
 	rNextPoll   int64
 
 	// monitor state
-	txCount      map[uint32]int // transmissions per sn (PUSH)
-	maxTx        int
-	pushSegs     int64
-	dgrams       int64
-	lossPending  bool
-	lossUna      uint32
-	zeroWndAdv   int64 // datagram segments advertising wnd=0
-	sawRmtZero   bool
-	waskSent     int64
-	winsSent     int64
-	admitted     int64
-	tickArmed    bool
-	maxRcvQ      int
-	maxRcvBuf    int
-	maxInflight  int
-	firstTxAt    int64
-	lastWaitSnd  int
+	txCount     map[uint32]int // transmissions per sn (PUSH)
+	maxTx       int
+	pushSegs    int64
+	dgrams      int64
+	lossPending bool
+	lossUna     uint32
+	zeroWndAdv  int64 // datagram segments advertising wnd=0
+	sawRmtZero  bool
+	waskSent    int64
+	winsSent    int64
+	admitted    int64
+	tickArmed   bool
+	maxRcvQ     int
+	maxRcvBuf   int
+	maxInflight int
+	firstTxAt   int64
+	lastWaitSnd int
 }
 
 type simCore struct {
@@ -867,21 +868,25 @@ func (a *appScript) expand(rng *vrng, mss int, kind string) {
 
 // netProfile is a seeded random network.
 type netProfile struct {
-	Name     string  `json:"name"`
-	Loss     float64 `json:"loss"`
-	Dup      float64 `json:"dup"`
-	DelayMin int     `json:"delay_min"`
-	DelayMax int     `json:"delay_max"`
-	AckLoss  float64 `json:"ack_path_loss,omitempty"` // extra loss on direction 1
-	Outages  [][2]int `json:"outages,omitempty"`      // [from,to) ms: everything dropped
-	HealAt   int     `json:"heal_at"`                 // after this: no loss/dup, delay <= DelayMin..DelayMin+HealJit
-	HealJit  int     `json:"heal_jitter"`
+	Name      string   `json:"name"`
+	Loss      float64  `json:"loss"`
+	Dup       float64  `json:"dup"`
+	DelayMin  int      `json:"delay_min"`
+	DelayMax  int      `json:"delay_max"`
+	AckLoss   float64  `json:"ack_path_loss,omitempty"` // extra loss on direction 1
+	Outages   [][2]int `json:"outages,omitempty"`       // [from,to) ms: everything dropped
+	HealAt    int      `json:"heal_at"`                 // after this: no loss/dup, delay <= DelayMin..DelayMin+HealJit
+	HealJit   int      `json:"heal_jitter"`
+	LossyFrom int      `json:"lossy_from,omitempty"` // before this time: no loss, no duplication, constant delay DelayMin (FIFO)
 }
 
 func (p netProfile) fate(rng *vrng) fateFn {
 	return func(dir, nth int, now int64, data []byte) []int {
 		if p.HealAt > 0 && now >= int64(p.HealAt) {
 			return []int{p.DelayMin + rng.intn(p.HealJit+1)}
+		}
+		if now < int64(p.LossyFrom) {
+			return []int{p.DelayMin}
 		}
 		for _, o := range p.Outages {
 			if now >= int64(o[0]) && now < int64(o[1]) {
